@@ -112,6 +112,27 @@ def register(generators, gm):
             i = j
         return arms
 
+    def fn_end(body):
+        """`body` starts just after the `{` of a function: offset just after the matching `}` (None: unbalanced)"""
+        depth, j, in_str = 1, 0, False
+        while j < len(body) and depth:
+            c = body[j]
+            if in_str:
+                if c == "\\":
+                    j += 1
+                elif c == '"':
+                    in_str = False
+            elif c == '"':
+                in_str = True
+            elif c == "'" and j + 2 < len(body) and body[j + 2] == "'":
+                j += 2
+            elif c == "{":
+                depth += 1
+            elif c == "}":
+                depth -= 1
+            j += 1
+        return None if depth else j
+
     def squash(s):
         return re.sub(r"\s+", "", s)
 
@@ -140,6 +161,12 @@ def register(generators, gm):
         tm = re.search(r"#\[cfg\(test\)\]", body)
         if tm:
             body = body[:tm.start()]
+        # the body of `parse` ends at ITS closing brace: private helper functions may follow it (they are read below
+        # only through the calls of `parse`; unchanged source: nothing follows, `body` is the same text)
+        rest_items = ""
+        end = fn_end(body)
+        if end is not None and body[end:].strip():
+            body, rest_items = body[:end], body[end:]
         sq = squash(body)
         # early return on literal strings
         em = re.match(r'if(code\.is_empty\(\))((?:\|\|code=="[^"]*")*)\{returnNone;\}', sq)
@@ -167,6 +194,7 @@ def register(generators, gm):
         out = []
         seen = set()
         wildcard = False
+        lookahead_tied = []
         for pat, rhs in arms:
             if wildcard:
                 raise GenError("arm after the wildcard arm")
@@ -223,6 +251,29 @@ def register(generators, gm):
                     raise GenError("arm %d: extended-colour arm assigns %s / %s" % (code, m.group(1), m.group(2)))
                 out.append((code, "LsExtended %s" % targets[m.group(1)]))
                 continue
+            # the look-ahead arm in another spelling (a private helper over `&mut parts`, early `continue`, `if let`, ..):
+            # the DATA of the arm is the one colour variable it assigns (read here, strictly: exactly one of the three, and
+            # not `effects`); that it is a look-ahead arm is seen from the queue being consumed -- in the arm itself or in a
+            # private function of the file that the arm hands `&mut parts` to.  WHAT the look-ahead does (`5;n`, `2;r;g;b`,
+            # `break` otherwise) is a body shape: tied by the function translator (the helper is inlined into g_ls_parse) and
+            # Proofs/LsGen.v, which proves the translation equal to the hand model's LsExtended arm.
+            assigned = set(re.findall(r"(?<![\w.])(\w+)=(?!=)", re.sub(r"[=!<>]=|=>", "#", r)))
+            assigned |= set(re.findall(r"&mut(\w+)", r)) - {"parts"}      # a variable lent `&mut` to a helper counts as assigned
+            consumes = bool(re.search(r"\bparts\.(?:pop_front|next)\(\)", r))
+            for callee in re.findall(r"(?<![\w.:])(\w+)\s*\((?=[^()]*&mut\s+parts\b)", rhs):
+                hm = re.search(r"\bfn\s+%s\s*\(([^)]*)\)[^{;]*\{" % re.escape(callee), rest_items)
+                qm = hm and re.search(r"(\w+)\s*:\s*&mut\s+(?:std::collections::VecDeque<u8>|std::vec::IntoIter<u8>)", hm.group(1))
+                if not qm:
+                    raise GenError("arm %d: %s(.. &mut parts ..): no private function of the file with that name over the queue" % (code, callee))
+                hend = fn_end(rest_items[hm.end():])
+                if hend is not None and re.search(r"\b%s\.(?:pop_front|next)\(\)" % qm.group(1), rest_items[hm.end():hm.end() + hend]):
+                    consumes = True
+            if consumes and len(assigned) == 1 and assigned <= set(targets):
+                if not lookahead_tied:
+                    gm.takes_over("LsFn", "arm %d: body not recognised: %r" % (code, rhs[:120]))
+                    lookahead_tied.append(True)
+                out.append((code, "LsExtended %s" % targets[assigned.pop()]))
+                continue
             raise GenError("arm %d: body not recognised: %r" % (code, rhs[:120]))
         if not wildcard:
             raise GenError("no wildcard arm `_ => {}`")
@@ -247,6 +298,70 @@ def register(generators, gm):
         return "\n".join(o)
 
     # ------------------------------------------------------------------ Git
+    def hex_data_loose(arm, src):
+        """(prefix character, [lengths], {radices}) of the '#' branch of parse_color, read off the wildcard arm `arm` and the
+        bodies of the private functions of `src` it calls (transitively)"""
+        texts, work, seen = [arm], [arm], {"parse", "parse_color"}
+        while work:
+            t = work.pop()
+            for name in re.findall(r"(?<![\w.:])([a-z_]\w*)\s*\(", t):
+                if name in seen:
+                    continue
+                seen.add(name)
+                hm = re.search(r"\bfn\s+%s\s*\([^)]*\)[^{;]*\{" % re.escape(name), src)
+                if hm:
+                    end = fn_end(src[hm.end():])
+                    if end is None:
+                        raise GenError("parse_color: fn %s: unbalanced braces" % name)
+                    texts.append(src[hm.end():hm.end() + end])
+                    work.append(texts[-1])
+        region = "\n".join(texts)
+        prefixes = set(re.findall(r"\.strip_prefix\(\s*'([^'\\])'\s*\)", region))
+        if len(prefixes) != 1 or len(re.findall(r"\.strip_prefix\(", region)) != len(re.findall(r"\.strip_prefix\(\s*'[^'\\]'\s*\)", region)):
+            raise GenError("parse_color: expected one `strip_prefix('<character>')` prefix, found %r" % sorted(prefixes))
+        radices = []
+        for m in re.finditer(r"\bfrom_str_radix\s*\(", region):
+            if not region[:m.start()].endswith("u8::"):
+                raise GenError("parse_color: from_str_radix of another type than u8")
+            depth, j = 1, m.end()
+            comma = None
+            while j < len(region) and depth:
+                c = region[j]
+                if c in "([{":
+                    depth += 1
+                elif c in ")]}":
+                    depth -= 1
+                elif c == "," and depth == 1:
+                    comma = j
+                j += 1
+            lit = region[comma + 1:j - 1].strip().rstrip(",").strip() if comma is not None else ""
+            if depth or not re.fullmatch(r"\d+", lit):
+                raise GenError("parse_color: radix of from_str_radix is not a decimal literal: %r" % lit)
+            radices.append(int(lit))
+        if not radices:
+            raise GenError("parse_color: no u8::from_str_radix in the '#' branch")
+        # the lengths: literals compared with `<x>.len()` (directly, through a `let v = <x>.len();`, or as the arm
+        # patterns of a `match` on either), in the order written
+        lvars = re.findall(r"\blet\s+(?:mut\s+)?(\w+)\s*(?::\s*usize\s*)?=\s*\w+\.len\(\)\s*;", region)
+        subj = r"(?:\b\w+\.len\(\)" + "".join(r"|\b%s\b" % re.escape(v) for v in lvars) + ")"
+        found = []
+        for m in re.finditer(subj + r"\s*(?:!=|==)\s*(\d+)\b|\b(\d+)\s*(?:!=|==)\s*" + subj, region):
+            found.append((m.start(), int(m.group(1) or m.group(2))))
+        for m in re.finditer(r"\bmatch\s+" + subj + r"\s*\{", region):
+            blk = match_block(region[m.start():], r"match\s+" + subj, "parse_color (length)")
+            for pat, _rhs in split_arms(blk, "parse_color (length)"):
+                if re.fullmatch(r"\d+(\s*\|\s*\d+)*", pat):
+                    found.extend((m.start(), int(x)) for x in re.findall(r"\d+", pat))
+                elif pat != "_" and not re.fullmatch(r"\w+", pat):
+                    raise GenError("parse_color: length arm %r is not a list of literals" % pat)
+        lens = []
+        for _pos, n in sorted(found, key=lambda x: x[0]):
+            if n not in lens:
+                lens.append(n)
+        if not lens:
+            raise GenError("parse_color: no literal the length of the '#' digits is compared with")
+        return prefixes.pop(), lens, set(radices)
+
     def gen_git():
         rel = "crates/anstyle-git/src/lib.rs"
         src = gm.strip_comments(gm.read(rel))
@@ -332,11 +447,19 @@ def register(generators, gm):
             r"\{Some\(anstyle::Color::from\(\(r,g,b\)\)\)\}else\{returnErr\(\(\)\);\}\}"
             r"elseifletOk\(n\)=word\.parse::<u8>\(\)\{Some\(anstyle::Color::from\(n\)\)\}else\{returnErr\(\(\)\);\}\}", fallback)
         if not fm:
-            raise GenError("parse_color: '#'-word / number fall-back not recognised")
+            # another spelling of the fall-back (a private helper for the '#' digits, `match hex.len()`, `split_at`, `?`, ..):
+            # HOW the word is cut and converted is a body shape -- tied by the function translator (GitFn translates
+            # parse_color with its helpers inlined) and Proofs/GitGen.v, which proves that translation equal to the hand model
+            # over the three numbers below.  The numbers are still READ, each one strictly, off the wildcard arm and the private
+            # functions it calls: the one prefix character, the one radix, the literals the byte length is compared with.
+            gm.takes_over("GitFn", "parse_color: '#'-word / number fall-back not recognised")
+            prefix, lens, radices = hex_data_loose(carms[-1][1], src)
+        else:
+            prefix = fm.group(1)
+            lens = [int(x) for x in re.findall(r"l!=(\d+)", fm.group(2))]
+            radices = {int(fm.group(3)), int(fm.group(4)), int(fm.group(5))}
         if not squash(cbody).startswith("letcolor=matchword{") or "};Ok(color)}" not in squash(cbody):
-            raise GenError("parse_color: `let color = match word {..}; Ok(color)` not recognised")
-        lens = [int(x) for x in re.findall(r"l!=(\d+)", fm.group(2))]
-        radices = {int(fm.group(3)), int(fm.group(4)), int(fm.group(5))}
+            gm.takes_over("GitFn", "parse_color: `let color = match word {..}; Ok(color)` not recognised")
         if len(radices) != 1:
             raise GenError("parse_color: three different radices")
         o = [gm.HEADER % rel + "(* plus crates/anstyle/src/{effect.rs,color.rs} for the effect bit numbers and the AnsiColor order *)\n"]
@@ -347,7 +470,7 @@ def register(generators, gm):
         o.append("(* name arms of `parse_color`: None = Ok(None), Some i = Ok(Some(AnsiColor #i)) *)\n"
                  "Definition git_color_names : list (list N * option N) :=\n" +
                  gm.coq_list(["(%s (* %s *), %s)" % (coq_word(w), lit.strip('"'), v) for lit, w, v in names], 1, "  ") + ".\n")
-        o.append("Definition git_hex_prefix : N := %d.\n" % ord(fm.group(1)))
+        o.append("Definition git_hex_prefix : N := %d.\n" % ord(prefix))
         o.append("Definition git_hex_lens : list N := [%s].\n" % "; ".join(str(x) for x in lens))
         o.append("Definition git_hex_radix : N := %d.\n" % radices.pop())
         return "\n".join(o)
